@@ -458,8 +458,13 @@ func edgeDominates(from, to, b *ssa.BasicBlock) bool {
 }
 
 // FactsAt returns the atoms that hold whenever control reaches block b.
-func FactsAt(b *ssa.BasicBlock) []Fact {
+func FactsAt(b *ssa.BasicBlock) []Fact { return factsAt(b, 0) }
+
+func factsAt(b *ssa.BasicBlock, depth int) []Fact {
 	var out []Fact
+	if depth > 6 {
+		return nil
+	}
 	for d := b.Idom(); d != nil; d = d.Idom() {
 		if len(d.Instrs) == 0 {
 			continue
@@ -468,15 +473,124 @@ func FactsAt(b *ssa.BasicBlock) []Fact {
 		if !ok {
 			continue
 		}
-		a := CondAtom(ifi.Cond)
 		if edgeDominates(d, d.Succs[0], b) {
-			out = append(out, Fact{a, ifi})
+			out = append(out, condFacts(ifi, ifi.Cond, true, depth)...)
 		} else if edgeDominates(d, d.Succs[1], b) {
-			out = append(out, Fact{a.Negate(), ifi})
+			out = append(out, condFacts(ifi, ifi.Cond, false, depth)...)
 		}
 	}
-	// the block's own position inside its dominator chain: b itself may be
-	// the single-pred successor
+	return out
+}
+
+// condFacts: the facts implied by `cond == val` at the branch ifi. A boolean
+// phi produced by && / || (or by a tagless switch case with &&) is looked
+// through: if only one incoming edge can make the phi equal val, control came
+// along that edge, so the facts of that predecessor and of its value hold too.
+func condFacts(ifi *ssa.If, cond ssa.Value, val bool, depth int) []Fact {
+	for {
+		if u, ok := cond.(*ssa.UnOp); ok && u.Op == token.NOT {
+			cond, val = u.X, !val
+			continue
+		}
+		break
+	}
+	if ph, ok := cond.(*ssa.Phi); ok && depth < 6 {
+		dead := DeadBlocks(ph.Parent())
+		cand := -1
+		n := 0
+		for i, e := range ph.Edges {
+			if i < len(ph.Block().Preds) && dead[ph.Block().Preds[i]] {
+				continue
+			}
+			if c, isConst := e.(*ssa.Const); isConst && c.Value != nil {
+				if (constString(c) == "true") != val {
+					continue // this edge cannot produce val
+				}
+			}
+			cand = i
+			n++
+		}
+		if n == 1 && cand < len(ph.Block().Preds) {
+			pred := ph.Block().Preds[cand]
+			var out []Fact
+			// facts that hold at the predecessor (it dominates itself: include its own dominating edges)
+			for _, f := range factsAt(pred, depth+1) {
+				out = append(out, Fact{f.Atom, ifi})
+			}
+			// the edge pred -> phi block, if pred ends in a branch
+			if len(pred.Instrs) > 0 {
+				if pif, ok := pred.Instrs[len(pred.Instrs)-1].(*ssa.If); ok {
+					if pred.Succs[0] == ph.Block() && pred.Succs[1] != ph.Block() {
+						for _, f := range condFacts(pif, pif.Cond, true, depth+1) {
+							out = append(out, Fact{f.Atom, ifi})
+						}
+					} else if pred.Succs[1] == ph.Block() && pred.Succs[0] != ph.Block() {
+						for _, f := range condFacts(pif, pif.Cond, false, depth+1) {
+							out = append(out, Fact{f.Atom, ifi})
+						}
+					}
+				}
+			}
+			if _, isConst := ph.Edges[cand].(*ssa.Const); !isConst {
+				out = append(out, condFacts(ifi, ph.Edges[cand], val, depth+1)...)
+			}
+			return out
+		}
+	}
+	a := CondAtom(cond)
+	if !val {
+		a = a.Negate()
+	}
+	return []Fact{{a, ifi}}
+}
+
+// EdgeFacts returns the facts carried by the edge of ifi taken when its
+// condition equals val (boolean phis of && / || looked through).
+func EdgeFactsOf(ifi *ssa.If, val bool) []Fact { return condFacts(ifi, ifi.Cond, val, 0) }
+
+// EdgeAlternatives returns, for the edge of ifi taken when its condition
+// equals val, one fact list per way the condition can get that value: a
+// boolean phi of || (or &&) contributes one alternative per incoming edge that
+// can produce val. Every alternative is a conjunction; the edge carries their disjunction.
+func EdgeAlternatives(ifi *ssa.If, val bool) [][]Fact {
+	cond := ifi.Cond
+	for {
+		if u, ok := cond.(*ssa.UnOp); ok && u.Op == token.NOT {
+			cond, val = u.X, !val
+			continue
+		}
+		break
+	}
+	ph, ok := cond.(*ssa.Phi)
+	if !ok {
+		return [][]Fact{condFacts(ifi, cond, val, 0)}
+	}
+	var out [][]Fact
+	dead := DeadBlocks(ph.Parent())
+	for i, e := range ph.Edges {
+		if i >= len(ph.Block().Preds) || dead[ph.Block().Preds[i]] {
+			continue
+		}
+		if c, isConst := e.(*ssa.Const); isConst && c.Value != nil && (constString(c) == "true") != val {
+			continue
+		}
+		pred := ph.Block().Preds[i]
+		var alt []Fact
+		alt = append(alt, factsAt(pred, 1)...)
+		if len(pred.Instrs) > 0 {
+			if pif, ok := pred.Instrs[len(pred.Instrs)-1].(*ssa.If); ok {
+				if pred.Succs[0] == ph.Block() && pred.Succs[1] != ph.Block() {
+					alt = append(alt, condFacts(pif, pif.Cond, true, 1)...)
+				} else if pred.Succs[1] == ph.Block() && pred.Succs[0] != ph.Block() {
+					alt = append(alt, condFacts(pif, pif.Cond, false, 1)...)
+				}
+			}
+		}
+		if _, isConst := e.(*ssa.Const); !isConst {
+			alt = append(alt, condFacts(ifi, e, val, 1)...)
+		}
+		out = append(out, alt)
+	}
 	return out
 }
 
@@ -525,20 +639,40 @@ func posOf(in ssa.Instruction) ipos {
 
 // walkFrom visits every instruction reachable strictly after start (or
 // from the first instruction of start block when fromTop). visit returns
-// false to stop exploring past that instruction.
+// false to stop exploring past that instruction. Branches whose outcome is
+// fixed by the predecessor the walk came through are threaded: a constant
+// condition, or a test of a phi against nil / as a boolean whose incoming
+// value on that edge is known (an error variable set on the way).
 func walkFrom(start ipos, inclusive bool, visit func(ssa.Instruction) bool) {
-	seen := map[*ssa.BasicBlock]bool{}
-	var run func(b *ssa.BasicBlock, i int)
-	run = func(b *ssa.BasicBlock, i int) {
+	type key struct {
+		b    *ssa.BasicBlock
+		pred *ssa.BasicBlock
+	}
+	seen := map[key]bool{}
+	var run func(b *ssa.BasicBlock, i int, pred *ssa.BasicBlock)
+	run = func(b *ssa.BasicBlock, i int, pred *ssa.BasicBlock) {
 		for ; i < len(b.Instrs); i++ {
 			if !visit(b.Instrs[i]) {
 				return
 			}
 		}
-		for _, s := range b.Succs {
-			if !seen[s] {
-				seen[s] = true
-				run(s, 0)
+		succs := b.Succs
+		if len(b.Instrs) > 0 {
+			if ifi, ok := b.Instrs[len(b.Instrs)-1].(*ssa.If); ok {
+				if t, known := threadIf(ifi, pred); known {
+					if t {
+						succs = b.Succs[:1]
+					} else {
+						succs = b.Succs[1:2]
+					}
+				}
+			}
+		}
+		for _, s := range succs {
+			k := key{s, b}
+			if !seen[k] {
+				seen[k] = true
+				run(s, 0, b)
 			}
 		}
 	}
@@ -546,7 +680,160 @@ func walkFrom(start ipos, inclusive bool, visit func(ssa.Instruction) bool) {
 	if !inclusive {
 		i++
 	}
-	run(start.b, i)
+	run(start.b, i, nil)
+}
+
+// threadIf decides a branch from the predecessor through which its block was entered.
+func threadIf(ifi *ssa.If, pred *ssa.BasicBlock) (taken bool, known bool) {
+	cond := ifi.Cond
+	neg := false
+	for {
+		if u, ok := cond.(*ssa.UnOp); ok && u.Op == token.NOT {
+			cond, neg = u.X, !neg
+			continue
+		}
+		break
+	}
+	if c, ok := cond.(*ssa.Const); ok && c.Value != nil {
+		return (constString(c) == "true") != neg, true
+	}
+	if pred == nil {
+		return false, false
+	}
+	incoming := func(v ssa.Value) ssa.Value {
+		ph, ok := v.(*ssa.Phi)
+		if !ok || ph.Block() != ifi.Block() {
+			return nil
+		}
+		for i, p := range ph.Block().Preds {
+			if p == pred && i < len(ph.Edges) {
+				return ph.Edges[i]
+			}
+		}
+		return nil
+	}
+	switch x := cond.(type) {
+	case *ssa.Phi:
+		if v := incoming(x); v != nil {
+			if c, ok := v.(*ssa.Const); ok && c.Value != nil {
+				return (constString(c) == "true") != neg, true
+			}
+		}
+	case *ssa.BinOp:
+		if x.Op != token.EQL && x.Op != token.NEQ {
+			break
+		}
+		var other ssa.Value
+		var v ssa.Value
+		if v = incoming(x.X); v != nil {
+			other = x.Y
+		} else if v = incoming(x.Y); v != nil {
+			other = x.X
+		}
+		if v == nil || !isNilConst(other) {
+			break
+		}
+		isNil, ok := nilness(v)
+		if !ok {
+			break
+		}
+		res := isNil == (x.Op == token.EQL)
+		return res != neg, true
+	}
+	return false, false
+}
+
+// nilness: is v certainly nil / certainly non-nil?
+func nilness(v ssa.Value) (isNil bool, known bool) {
+	switch x := v.(type) {
+	case *ssa.Const:
+		if x.Value == nil {
+			return true, true
+		}
+	case *ssa.MakeInterface, *ssa.Alloc, *ssa.FieldAddr, *ssa.IndexAddr, *ssa.MakeClosure, *ssa.Function, *ssa.MakeSlice, *ssa.MakeMap, *ssa.MakeChan:
+		return false, true
+	case *ssa.ChangeInterface:
+		return nilness(x.X)
+	case *ssa.Call:
+		return callNilness(x, 0, 0)
+	case *ssa.Extract:
+		if call, ok := x.Tuple.(*ssa.Call); ok {
+			return callNilness(call, x.Index, 0)
+		}
+	}
+	return false, false
+}
+
+// callNilness summarises a static callee with a body: if every return yields,
+// for result idx, a value that is certainly nil / certainly non-nil (a
+// parameter counts as its argument at this call), the call result is too.
+func callNilness(call *ssa.Call, idx, depth int) (isNil bool, known bool) {
+	callee := call.Call.StaticCallee()
+	if callee == nil || callee.Blocks == nil || depth > 3 {
+		return false, false
+	}
+	first := true
+	var res bool
+	var eval func(v ssa.Value, d int) (bool, bool)
+	eval = func(v ssa.Value, d int) (bool, bool) {
+		if d > 6 {
+			return false, false
+		}
+		switch x := v.(type) {
+		case *ssa.Parameter:
+			for i, p := range callee.Params {
+				if p == x && i < len(call.Call.Args) {
+					return nilness(call.Call.Args[i])
+				}
+			}
+			return false, false
+		case *ssa.Phi:
+			f := true
+			var r bool
+			for _, e := range x.Edges {
+				n, k := eval(e, d+1)
+				if !k {
+					return false, false
+				}
+				if f {
+					r, f = n, false
+				} else if r != n {
+					return false, false
+				}
+			}
+			return r, !f
+		case *ssa.Call:
+			return callNilness(x, 0, depth+1)
+		case *ssa.Extract:
+			if c, ok := x.Tuple.(*ssa.Call); ok {
+				return callNilness(c, x.Index, depth+1)
+			}
+			return false, false
+		}
+		return nilness(v)
+	}
+	for _, b := range callee.Blocks {
+		if len(b.Instrs) == 0 {
+			continue
+		}
+		ret, ok := b.Instrs[len(b.Instrs)-1].(*ssa.Return)
+		if !ok {
+			continue
+		}
+		if idx >= len(ret.Results) {
+			return false, false
+		}
+		n, k := eval(RetResult(ret, idx), 0)
+		if !k {
+			return false, false
+		}
+		if first {
+			res, first = n, false
+		} else if res != n {
+			return false, false
+		}
+	}
+	return res, !first
 }
 
 // canReach reports whether any instruction in targets is reachable from start
@@ -575,4 +862,56 @@ func instrSet(ins []ssa.Instruction) map[ssa.Instruction]bool {
 		m[in] = true
 	}
 	return m
+}
+
+// ---------------------------------------------------------------------------
+// Dead blocks: blocks reachable from the entry only through a branch whose
+// condition is a constant that sends control the other way (build-time
+// constants such as runtime.GOOS == "zos").
+
+var deadCache = map[*ssa.Function]map[*ssa.BasicBlock]bool{}
+
+// DeadBlocks returns the unreachable blocks of fn under constant folding of branch conditions.
+func DeadBlocks(fn *ssa.Function) map[*ssa.BasicBlock]bool {
+	if fn == nil || len(fn.Blocks) == 0 {
+		return nil
+	}
+	if d, ok := deadCache[fn]; ok {
+		return d
+	}
+	live := map[*ssa.BasicBlock]bool{}
+	var walk func(b *ssa.BasicBlock)
+	walk = func(b *ssa.BasicBlock) {
+		if live[b] {
+			return
+		}
+		live[b] = true
+		if len(b.Instrs) > 0 {
+			if ifi, ok := b.Instrs[len(b.Instrs)-1].(*ssa.If); ok {
+				if c, ok := ifi.Cond.(*ssa.Const); ok && c.Value != nil {
+					if constString(c) == "true" {
+						walk(b.Succs[0])
+					} else {
+						walk(b.Succs[1])
+					}
+					return
+				}
+			}
+		}
+		for _, s := range b.Succs {
+			walk(s)
+		}
+	}
+	walk(fn.Blocks[0])
+	dead := map[*ssa.BasicBlock]bool{}
+	for _, b := range fn.Blocks {
+		if !live[b] {
+			dead[b] = true
+		}
+	}
+	if fn.Recover != nil {
+		delete(dead, fn.Recover)
+	}
+	deadCache[fn] = dead
+	return dead
 }
